@@ -128,6 +128,13 @@ class Gen:
         self.features.add("matrix-gate")
         return cirq.MatrixGate(self._unitary_matrix(2)).on(q)
 
+    def global_phase(self) -> Optional[cirq.Operation]:
+        """An operation on no qubits: a phase factor for the state vector, nothing for a density matrix."""
+        self.features.add("global-phase-op")
+        if self.clifford_only:
+            return cirq.global_phase_operation(self._pick([1j, -1, -1j], "phase"))
+        return cirq.global_phase_operation(self._pick([1j, -1, np.exp(0.25j * np.pi), np.exp(-0.3j)], "phase"))
+
     def double(self) -> Optional[cirq.Operation]:
         if len(self.qudits) < 2:
             return self.single()
@@ -569,10 +576,11 @@ class Gen:
                    1 if (self.allow_reset and not self.clifford_only) else 0,
                    1 if (self.allow_pauli_measure and self.allow_measure) else 0,
                    4 if self.allow_channels else 0,
-                   2 if self.allow_subcircuits else 0]
+                   2 if self.allow_subcircuits else 0,
+                   1]
         makers = [self.single, self.double, self.measure, self.controlled, self.reset, self.pauli_measure, self.channel,
-                  self.subcircuit]
-        names = ["1q", "2q", "measure", "controlled", "reset", "pauli-measure", "channel", "subcircuit"]
+                  self.subcircuit, self.global_phase]
+        names = ["1q", "2q", "measure", "controlled", "reset", "pauli-measure", "channel", "subcircuit", "global-phase"]
         for _ in range(n_ops):
             k = self.t.weighted(weights, "op-kind")
             op = makers[k]()
